@@ -8,7 +8,9 @@ Limit == atoi(IOEnv.LIMIT)
 Sample(S) == IF Cardinality(S) <= Limit THEN S ELSE RandomSubset(Limit, S)
 Pos == {<<None, None>>, <<0, None>>, <<1, None>>, <<2, None>>, <<None, 0>>, <<None, 1>>, <<None, 2>>, <<1, 1>>, <<0, 2>>, <<2, 0>>, <<-1, None>>, <<None, 70000>>, <<3, 1>>}
 Sets == {<<None, None, None, None>>, <<2, None, None, None>>, <<None, 3, None, None>>, <<None, None, 20, None>>, <<None, None, None, 30>>,
-         <<2, 3, None, None>>, <<None, None, 20, 30>>, <<5, None, 40, None>>, <<None, 7, None, 50>>}
+         <<2, 3, None, None>>, <<None, None, 20, 30>>, <<5, None, 40, None>>, <<None, 7, None, 50>>,
+         \* explicit zeros: a value like any other (recorded, extends the array, conflicts with another value)
+         <<0, None, None, None>>, <<None, 0, None, None>>, <<0, 0, None, None>>, <<None, None, 0, None>>, <<None, None, None, 0>>, <<0, 3, 0, None>>}
 Kid(p, s) == [row |-> p[1], col |-> p[2], rs |-> s[1], cs |-> s[2], rmh |-> s[3], cmw |-> s[4]]
 Kids1 == {Kid(p, s) : p \in Pos, s \in Sets}
 Plain == {Kid(p, <<None, None, None, None>>) : p \in Pos}
